@@ -500,8 +500,13 @@ class Check:
             "wall_s": round(time.time() - self.t0, 2),
             "violations": len(seen),
         }
-        os.makedirs(os.path.join(VERIF, "evidence"), exist_ok=True)
-        with open(os.path.join(VERIF, "evidence", "%s.json" % self.pid), "w") as f:
+        # runs against a scratch worktree (EKO_REPO, used for seeded regressions) or on a debugging subset of the cases
+        # (VERIF_CASES) never overwrite the evidence of the registered check on /repo
+        evdir = os.path.join(VERIF, "evidence")
+        if os.path.realpath(REPO) != "/repo" or os.environ.get("VERIF_CASES"):
+            evdir = os.path.join(VERIF, "evidence", ".scratch")
+        os.makedirs(evdir, exist_ok=True)
+        with open(os.path.join(evdir, "%s.json" % self.pid), "w") as f:
             json.dump(ev, f, indent=1, default=str)
         print("%s tier=%s obligations=%d discharged=%d violations=%d known=%d inconclusive=%d wall=%.1fs"
               % (self.pid, tier(), obligations, discharged, len(seen), len(known_hit), len(inconclusive), time.time() - self.t0))
